@@ -5,5 +5,6 @@ CONSTANTS
   LastChanceAny = {"m", "s", "p"}
   WalkSorted = TRUE
   AssumeUserRange = TRUE
-INVARIANTS SoundName ExactWins ErrorOnlyIfNothing OwnActionReachable PropertyEventId NamesDistinct NamesCover NamesStable FirstKeepsBare FullKeepsIdsUnique FullKeepsActions FullHasGeneric FullIdempotent ActionNameSound
+  QueryTypes = {"lookup"}
+INVARIANTS SoundName ExactWins ErrorOnlyIfNothing OwnActionReachable PropertyEventId
 CHECK_DEADLOCK FALSE
